@@ -466,3 +466,156 @@ Section Machines.
       assert (p = s) by (destruct b; inversion Hp; reflexivity). subst p. apply (V s eq_refl).
   Qed.
 End Machines.
+
+(* ------------------------------------------------------------------ whole histories *)
+Lemma run_dom_prev m o d : run_dom m o d = true -> d = true /\ run_dom m o true = true.
+Proof.
+  destruct o; cbn; intros H; try (split; [exact H | reflexivity]).
+  apply andb_true_iff in H. destruct H as [-> H]. split; [reflexivity | exact H].
+Qed.
+
+Lemma fold_err_m f reg bk outf rules prog : forall mo d, (forall m, mo <> Ok m) ->
+  fold_left (mstep_acc f reg bk outf rules) prog (mo, d) = (mo, d).
+Proof.
+  induction prog as [|o prog IH]; intros mo d H; [reflexivity|]. cbn [fold_left].
+  unfold mstep_acc at 2. cbn [fst snd]. destruct mo as [m|t|t]; [exfalso; apply (H m); reflexivity | |]; apply IH; exact H.
+Qed.
+Lemma fold_err_a f areg abk aoutf rules prog : forall ao, (forall a, ao <> Ok a) ->
+  fold_left (astep f areg abk aoutf rules) prog ao = ao.
+Proof.
+  induction prog as [|o prog IH]; intros ao H; [reflexivity|]. cbn [fold_left].
+  destruct ao as [a|t|t]; [exfalso; apply (H a); reflexivity | |]; cbn [astep obind]; apply IH; intros a; discriminate.
+Qed.
+
+Lemma fold_sim f reg bk outf rules areg abk aoutf prog : forall mo d ao,
+  (d = true -> osim reg bk outf mo ao areg abk aoutf) ->
+  snd (fold_left (mstep_acc f reg bk outf rules) prog (mo, d)) = true ->
+  osim reg bk outf (fst (fold_left (mstep_acc f reg bk outf rules) prog (mo, d)))
+       (fold_left (astep f areg abk aoutf rules) prog ao) areg abk aoutf.
+Proof.
+  induction prog as [|o prog IH]; intros mo d ao H D; cbn [fold_left] in *.
+  - cbn [fst snd] in *. apply H. exact D.
+  - destruct mo as [m|t|t].
+    + unfold mstep_acc at 2 in D. unfold mstep_acc at 2. cbn [fst snd] in *.
+      apply IH; [|exact D]. intros D'. apply run_dom_prev in D'. destruct D' as [Dd Dr].
+      specialize (H Dd). destruct ao as [a|t|t]; cbn [osim] in H; try contradiction.
+      apply step_sim; assumption.
+    + unfold mstep_acc at 2 in D. unfold mstep_acc at 2. cbn [fst snd] in *.
+      rewrite fold_err_m in D |- * by (intros m; discriminate). cbn [fst snd] in *.
+      specialize (H D). destruct ao as [a|t'|t']; cbn [osim] in H; try contradiction. subst t'.
+      cbn [astep obind]. rewrite fold_err_a by (intros a; discriminate). reflexivity.
+    + unfold mstep_acc at 2 in D. unfold mstep_acc at 2. cbn [fst snd] in *.
+      rewrite fold_err_m in D |- * by (intros m; discriminate). cbn [fst snd] in *.
+      specialize (H D). destruct ao as [a|t'|t']; cbn [osim] in H; try contradiction. subst t'.
+      cbn [astep obind]. rewrite fold_err_a by (intros a; discriminate). reflexivity.
+Qed.
+
+(* the initial objects *)
+Definition def_rel (h : heap) (d : pdef) (p : ppl) : Prop :=
+  p_items p = d_items d /\ p_post p = d_post d /\ p_fin p = d_fin d /\ p_prio p = d_prio d /\
+  p_name p = d_name d /\ h_vars h (p_id p) = d_vars d /\ p_id p < h_next h.
+
+Lemma mk_defs_spec ds : forall h h' l, mk_defs h ds = (h', Ok l) ->
+  h_next h <= h_next h' /\ (forall pid, pid < h_next h -> h_vars h' pid = h_vars h pid) /\
+  Forall2 (def_rel h') ds l.
+Proof.
+  induction ds as [|d ds IH]; intros h h' l E; cbn [mk_defs] in E.
+  - inversion E; subst. split; [lia|]. split; [reflexivity | constructor].
+  - unfold hbind in E. destruct (mk_def h d) as [h1 r1] eqn:E1. cbn [fst snd] in E.
+    destruct r1 as [p|t|t]; try discriminate.
+    destruct (mk_defs h1 ds) as [h2 r2] eqn:E2. cbn [fst snd] in E.
+    destruct r2 as [l'|t|t]; try discriminate. inversion E; subst; clear E.
+    destruct (IH _ _ _ E2) as (N2 & V2 & F2).
+    unfold mk_def in E1. apply mk_ok in E1. destruct E1 as (_ & Hp & Hv & _ & Hn).
+    split; [lia|]. split.
+    + intros pid Hpid. rewrite V2 by lia. rewrite Hv. unfold upd.
+      destruct (N.eqb pid (h_next h)) eqn:Ep; [apply N.eqb_eq in Ep; lia | reflexivity].
+    + constructor; [|exact F2]. subst p. unfold def_rel. cbn [p_items p_post p_fin p_prio p_name p_id].
+      repeat split; try reflexivity; [|lia].
+      rewrite V2 by lia. rewrite Hv. apply upd_same.
+Qed.
+
+Lemma F2_len {A B} (R : A -> B -> Prop) l1 l2 : Forall2 R l1 l2 -> length l1 = length l2.
+Proof. induction 1; cbn; congruence. Qed.
+
+Lemma def_rel_abs h d p : def_rel h d p -> gentry h p = adef d /\ valid h p.
+Proof.
+  intros (A & B & C & D & E & F & G). split; [|exact G].
+  unfold gentry, adef, abs. rewrite A, B, C, D, E, F. reflexivity.
+Qed.
+
+(* FULL STATEMENT (false: C14_reuse_refuted): the premise `snd (mexec ...) = true` dropped.
+   For every history of API calls in which the initial objects are distinct and every conversion
+   without re-initialisation runs a pipeline that still owns its objects, the heap machine shows
+   exactly what the value-only specification shows (same output, applied, state, ids, vars, or the
+   same error). *)
+Theorem history_sound f defs bkd outd rules prog h0 l :
+  mk_defs h_empty (defs ++ [bkd; outd]) = (h0, Ok l) ->
+  snd (mexec f defs bkd outd rules prog) = true ->
+  fst (mexec f defs bkd outd rules prog)
+  = aexec f (map adef defs) (fst (fst (adef bkd))) (fst (fst (adef outd))) rules prog.
+Proof.
+  intros E0 D. unfold mexec in *. rewrite E0 in *. cbn [fst snd] in *.
+  destruct (mk_defs_spec _ _ _ _ E0) as (_ & _ & F).
+  apply Forall2_app_inv_l in F. destruct F as (l1 & l2 & F1 & F2 & ->).
+  inversion F2 as [|? bk ? l3 Rb F3]; subst. inversion F3 as [|? outf ? l4 Ro F4]; subst. inversion F4; subst.
+  assert (Len : length l1 = length defs) by (symmetry; eapply F2_len; exact F1).
+  rewrite <- Len in *.
+  assert (N1 : nth_error (l1 ++ [bk; outf]) (length l1) = Some bk).
+  { rewrite nth_error_app2 by lia. rewrite Nat.sub_diag. reflexivity. }
+  assert (N2 : nth_error (l1 ++ [bk; outf]) (S (length l1)) = Some outf).
+  { rewrite nth_error_app2 by lia. replace (S (length l1) - length l1)%nat with 1%nat by lia. reflexivity. }
+  rewrite N1, N2 in *. rewrite firstn_app, Nat.sub_diag, firstn_all in *. cbn [firstn] in *. rewrite app_nil_r in *.
+  destruct (def_rel_abs _ _ _ Rb) as [Gb Vb], (def_rel_abs _ _ _ Ro) as [Go Vo].
+  assert (Gl : map (gentry h0) l1 = map adef defs /\ Forall (valid h0) l1).
+  { clear - F1. induction F1 as [|d p ds ps R F IH]; [split; constructor|].
+    destruct IH as [IH1 IH2]. destruct (def_rel_abs _ _ _ R) as [G V]. cbn [map]. rewrite G, IH1.
+    split; [reflexivity | constructor; assumption]. }
+  destruct Gl as [Gl Vl].
+  set (m0 := {| mc_heap := h0; mc_regs := l1; mc_lastA := None; mc_lastB := None; mc_res := None |}) in *.
+  set (areg := map adef defs) in *.
+  pose proof (fold_sim f l1 bk outf rules areg (fst (fst (adef bkd))) (fst (fst (adef outd))) prog
+                (Ok m0) true
+                (Ok {| am_regs := map (fun e : aentry => fst (fst e)) areg; am_lastA := None; am_lastB := None; am_res := None |})) as S.
+  unfold aexec.
+  destruct (fold_left (mstep_acc f l1 bk outf rules) prog (Ok m0, true)) as [mo d]. cbn [fst snd] in *.
+  match type of S with ?P -> _ => assert (HP : P) end.
+  { intros _. cbn [osim]. unfold inv. cbn [mc_heap]. split; [|split; [|split; [|split; [|split]]]].
+    - unfold amach_of. cbn [mc_regs mc_lastA mc_lastB mc_res oabs option_map]. f_equal.
+      subst areg m0. cbn [mc_heap mc_regs]. rewrite <- Gl, !map_map. reflexivity.
+    - unfold allvalid. cbn. split; [exact Vl|]. split; intros q Hq; discriminate.
+    - unfold fixedok. repeat split; assumption.
+    - symmetry. exact Gl.
+    - rewrite <- Gb. reflexivity.
+    - rewrite <- Go. reflexivity. }
+  specialize (S HP D).
+  destruct mo as [m|t|t]; destruct (fold_left (astep _ _ _ _ _) prog _) as [a|t'|t']; cbn [osim] in S; try contradiction;
+    cbn [obind]; try congruence.
+  destruct S as (Ea & _). subst a. unfold amach_of. cbn [am_res]. reflexivity.
+Qed.
+
+(* the witness of D18 as a history: a + b, backend initialised with it, a + b once more, convert_rule *)
+Definition w_defA : pdef := {| d_items := [w_item]; d_post := []; d_fin := []; d_vars := []; d_prio := 0%Z; d_name := Some [97] |}.
+Definition w_defE (n : option str) : pdef := {| d_items := []; d_post := []; d_fin := []; d_vars := []; d_prio := 0%Z; d_name := n |}.
+Definition w_sum : itree := IPlus (ILeaf 0) (ILeaf 1).
+Definition w_prog_stale : list op := [OpTree w_sum; OpInit false (Some 2%nat); OpTree w_sum; OpRun false].
+Definition w_prog_fresh : list op := [OpTree w_sum; OpTree w_sum; OpConvert false (Some 3%nat)].
+
+Lemma history_refuted :
+  exists f defs bkd outd rules prog l,
+    snd (mk_defs h_empty (defs ++ [bkd; outd])) = Ok l /\
+    snd (mexec f defs bkd outd rules prog) = false /\
+    fst (mexec f defs bkd outd rules prog)
+    <> aexec f (map adef defs) (fst (fst (adef bkd))) (fst (fst (adef outd))) rules prog.
+Proof.
+  exists FState, [w_defA; w_defE (Some [98])], (w_defE None), (w_defE None), w_rules, w_prog_stale.
+  eexists. split; [vm_compute; reflexivity|]. split; [vm_compute; reflexivity|]. vm_compute. discriminate.
+Qed.
+
+Lemma history_inhabited :
+  exists l, snd (mk_defs h_empty ([w_defA; w_defE (Some [98])] ++ [w_defE None; w_defE None])) = Ok l /\
+  snd (mexec FState [w_defA; w_defE (Some [98])] (w_defE None) (w_defE None) w_rules w_prog_fresh) = true /\
+  exists r, fst (mexec FState [w_defA; w_defE (Some [98])] (w_defE None) (w_defE None) w_rules w_prog_fresh) = Ok r.
+Proof.
+  eexists. split; [vm_compute; reflexivity|]. split; [vm_compute; reflexivity|]. eexists. vm_compute. reflexivity.
+Qed.
